@@ -423,6 +423,10 @@ func (e erc20CustomPrecompiledContractRwTransferFrom) transfer(ctx sdk.Context, 
 			}
 		} else {
 			// normal transfer
+			if e.contract.keeper.bankKeeper.BlockedAddr(to.Bytes()) {
+				// same restriction as the native bank transfer (eg: module accounts)
+				return nil, fmt.Errorf(`ERC20InvalidReceiver("%s")`, to.String())
+			}
 			if err := e.contract.keeper.bankKeeper.SendCoins(ctx, from.Bytes(), to.Bytes(), coins); err != nil {
 				return nil, errorsmod.Wrapf(errors.Join(cpctypes.ErrExecFailure, err), "failed to transfer coins")
 			}
